@@ -520,8 +520,12 @@ Lemma compose_fit_core c :
        (sg_segs (fst (calc_loop cfg (cx_opts c) (cx_hist c) (S (length (sg_input (compose_sg1 c)))) (cx_caret c) (compose_sg1 c)))) ->
   fit (compose cfg translate c).
 Proof.
-  intros He Hgeo L. destruct (compose_sg1_facts c Hgeo) as (G1 & P1).
-  unfold compose. fold (compose_sg1 c). set (sg1 := compose_sg1 c) in *.
+  intros He Hgeo L. unfold compose.
+  assert (Hhook : forall x, fit x -> fit (ac_on_update x))
+    by (intros x Hx; unfold ac_on_update; destruct (cx_conn x && negb (is_composing x)); exact Hx).
+  apply Hhook. clear Hhook.
+  destruct (compose_sg1_facts c Hgeo) as (G1 & P1).
+  unfold compose_core. fold (compose_sg1 c). set (sg1 := compose_sg1 c) in *.
   destruct (g_calc (cx_opts c) (cx_hist c) (cx_caret c) sg1 G1) as (G2 & O2).
   pose proof (calc_segmentation_input cfg (cx_opts c) (cx_hist c) (cx_caret c) sg1) as I2.
   assert (L2 : lfit false (sg_input sg1) (sg_segs (fst (calc_segmentation cfg (cx_opts c) (cx_hist c) (cx_caret c) sg1)))).
@@ -972,9 +976,9 @@ Proof.
   intros Es Hgeo P He Lr Hcl Hend Hraw Hlen1 Hst Hun Hen Hek Hka.
   apply compose_fit_core; [exact He | exact Hgeo|].
   destruct (compose_sg1_facts c Hgeo) as (G1 & _).
-  destruct c as [a k comp opts err hs]. destruct comp as [inp segs]. unfold prefix_ok in P. cbn in Es, P, Hen, Hek, Hka, Hun, Lr, He. subst segs.
+  destruct c as [a k comp opts err hs cn]. destruct comp as [inp segs]. unfold prefix_ok in P. cbn in Es, P, Hen, Hek, Hka, Hun, Lr, He. subst segs.
   remember (length inp) as n eqn:En.
-  assert (Esg1 : compose_sg1 (mkCtx a k (mkSegm inp (new_segment e e :: gb :: r)) opts err hs)
+  assert (Esg1 : compose_sg1 (mkCtx a k (mkSegm inp (new_segment e e :: gb :: r)) opts err hs cn)
                  = mkSegm (firstn k a) (new_segment e e :: gb :: r)).
   { unfold compose_sg1. cbn [cx_comp cx_caret cx_input].
     assert (E0 : reset_input (mkSegm inp (new_segment e e :: gb :: r)) (firstn k a) = mkSegm (firstn k a) (new_segment e e :: gb :: r)).
@@ -1539,6 +1543,59 @@ Proof.
   - rewrite (HN eq_refl) in Er. discriminate Er.
 Qed.
 
+(** ---- ascii_composer: every step is one of the context operations above ---- *)
+Lemma ac_switch_good s m st : sgood s -> sgood (ac_switch cfg translate s m st).
+Proof.
+  intros H. unfold ac_switch. apply on_ctx_good; [|intros c Hc; apply set_option_good, Hc].
+  destruct (is_composing (st_ctx s)); [|exact H].
+  assert (H0 : sgood (on_ctx s (fun c => ctx_with_conn c false))) by exact H.
+  destruct st.
+  - destruct m; exact H0.
+  - apply confirm_current_selection_good, H0.
+  - apply commit_good. apply on_ctx_good; [exact H0|]. intros c Hc. apply clear_non_confirmed_good, Hc.
+  - apply on_ctx_good; [exact H0|]. intros c Hc. apply clear_good, Hc.
+  - exact H0.
+Qed.
+Lemma ac_toggle_with_key_good s code : sgood s -> sgood (ac_toggle_with_key cfg translate s code).
+Proof.
+  intros H. unfold ac_toggle_with_key. destruct (ac_find (cf_ascii_keys cfg) code); [|exact H].
+  unfold ac_with_caps. apply (ac_switch_good s _ _ H).
+Qed.
+Lemma ac_process_caps_lock_good s k : sgood s -> sgood (fst (ac_process_caps_lock cfg translate s k)).
+Proof.
+  intros H. unfold ac_process_caps_lock.
+  destruct (k_code k =? XK_Caps_Lock)%Z.
+  - destruct (negb (k_release k)); [|exact H].
+    match goal with |- sgood (fst (if ?b then _ else _)) => destruct b end; [exact H|].
+    cbn [fst]. apply ac_switch_good. exact H.
+  - destruct (k_caps k); [|exact H].
+    match goal with |- sgood (fst (if ?b then _ else _)) => destruct b end; [|exact H]. exact H.
+Qed.
+Lemma ascii_composer_process_good s k : sgood s -> sgood (fst (ascii_composer_process cfg translate s k)).
+Proof.
+  intros H. unfold ascii_composer_process.
+  destruct ((k_shift k && k_ctrl k) || k_alt k || k_super k); [exact H|].
+  assert (H1 : sgood (fst (if ac_style_is_noop (ac_caps_style cfg) then (s, PNoop) else ac_process_caps_lock cfg translate s k))).
+  { destruct (ac_style_is_noop (ac_caps_style cfg)); [exact H | apply ac_process_caps_lock_good, H]. }
+  destruct (if ac_style_is_noop (ac_caps_style cfg) then (s, PNoop) else ac_process_caps_lock cfg translate s k) as [s1 r].
+  cbn [fst] in H1. destruct (negb (presult_is_noop r)); [exact H1|].
+  destruct (k_code k =? XK_Eisu_toggle)%Z.
+  { destruct (negb (k_release k)); [|exact H1]. cbn [fst]. apply ac_toggle_with_key_good. exact H1. }
+  cbv zeta.
+  match goal with |- sgood (fst (if ?b then _ else _)) => destruct b end.
+  - destruct (k_release k).
+    + destruct (ac_shift (st_ac s1) || ac_ctrl (st_ac s1)); [|exact H1]. cbn [fst]. unfold ac_unpress.
+      match goal with |- sgood (st_with_ac (if ?b then _ else _) _) => destruct b end;
+        [apply (ac_toggle_with_key_good s1 _ H1) | exact H1].
+    + destruct (negb (ac_shift (st_ac s1) || ac_ctrl (st_ac s1))); exact H1.
+  - assert (H2 : sgood (ac_unpress s1)) by exact H1.
+    match goal with |- sgood (fst (if ?b then _ else _)) => destruct b end; [exact H2|].
+    destruct (get_option (st_ctx (ac_unpress s1)) opt_ascii_mode); [|exact H2].
+    destruct (negb (is_composing (st_ctx (ac_unpress s1)))); [exact H2|].
+    match goal with |- sgood (fst (if ?b then _ else _)) => destruct b end; [|exact H2].
+    cbn [fst]. apply on_ctx_good; [exact H2|]. intros c Hc. apply push_input_good, Hc.
+Qed.
+
 Lemma process_key_gen_good kb s k :
   (forall x, sgood x -> sgood (fst (kb x k))) -> sgood s -> sgood (fst (process_key_gen cfg translate kb s k)).
 Proof.
@@ -1547,7 +1604,7 @@ Proof.
   { apply run_processors_good; [|exact H]. intros p Hp s0 H0. unfold processors in Hp. apply in_map_iff in Hp as (i & <- & Hi).
     destruct i; cbn [proc_of];
       [apply speller_process_good | exfalso; exact (Hnp Hi) | apply selector_process_good
-       | apply navigator_process_good | apply editor_process_good | apply Hkb]; exact H0. }
+       | apply navigator_process_good | apply editor_process_good | apply Hkb | apply ascii_composer_process_good]; exact H0. }
   destruct (run_processors (processors cfg translate kb) s k) as [s1 ret]. cbn [fst] in H1.
   pose proof (shape_process_good (on_ctx s1 (fun c => ctx_with_hist c (hist_push_key (cx_hist c) k))) k H1) as Hs.
   destruct ret; cbn [fst]; try exact H1; cbv zeta;
@@ -1619,6 +1676,7 @@ Proof.
   - exact H.
   - exact H.
   - apply set_option_good, H.
+  - exact H.
 Qed.
 
 Lemma init_good : sgood (init_state cfg).
